@@ -395,6 +395,22 @@ def _size_limits(prog: Program, run: Run) -> None:
         if not calls:
             raise AnalysisError(f"{C}: content call {content_call} not found")
         cn = cfg.node_of(_stmt(f.node, calls[0]))
+        # locals that merely stand for self.<limit> are read through
+        from .common import resolve_locals as _rl
+        lim_alias = {x.targets[0].id for x in walk_no_nested(f.node) if isinstance(x, ast.Assign)
+                     and isinstance(x.targets[0], ast.Name) and
+                     ast.unparse(x.value) == f"self.{limit}"}
+
+        class _Lim(ast.NodeTransformer):
+            def visit_Name(self, node: ast.Name) -> ast.AST:
+                if node.id in lim_alias and isinstance(node.ctx, ast.Load):
+                    return ast.parse(f"self.{limit}", mode="eval").body
+                return node
+        import copy as _copy
+        for x in walk_no_nested(f.node):
+            if isinstance(x, ast.If) and lim_alias and any(
+                    isinstance(n_, ast.Name) and n_.id in lim_alias for n_ in ast.walk(x.test)):
+                x.test = _Lim().visit(x.test)
         big = [x for x in walk_no_nested(f.node) if isinstance(x, ast.If) and f"self.{limit}" in
                ast.unparse(x.test) and any(isinstance(c, ast.Compare) and isinstance(
                    c.ops[0], (ast.Gt, ast.Lt, ast.GtE, ast.LtE)) for c in ast.walk(x.test)) and
